@@ -69,6 +69,8 @@ pub struct Scn {
     pub read: bool,
     #[serde(default)]
     pub keep_inputs: bool,
+    #[serde(default)]
+    pub quiet_adds: bool,
 }
 fn d_none() -> String {
     "none".into()
@@ -323,6 +325,10 @@ fn create(s: &Scn) -> Result<Vec<(u16, u32)>, String> {
         match adder.add(input, hint(&op.hint)) {
             Ok(a) => {
                 let (p, c) = (a.pack_id.into_u16(), a.content_id.into_u32());
+                if s.quiet_adds {
+                    addrs.push((p, c));
+                    continue;
+                }
                 emit(json!({"ev":"Add","i":i,"cid":op.cid,"size":op.size,"cls":op.cls,"hint":op.hint,
                             "src":op.src,"cached":s.cached,"pack":p,"idx":c}));
                 addrs.push((p, c));
